@@ -52,7 +52,7 @@ func (g *Gen) mapLenIn(m string, t types.Type, env *TEnv) string {
 
 func (g *Gen) makeMap(x *ssa.MakeMap) {
 	g.nfresh++
-	r := fmt.Sprintf("%d", 1000000000+g.nfresh)
+	r := g.newRefNumeral()
 	v, in, ln := g.mapCompNames(x.Type())
 	mt := x.Type().Underlying().(*types.Map)
 	ks := g.mapKeySort(mt)
